@@ -520,7 +520,7 @@ def project(r, reg):
     h = reg.handle(grid)
     dims = []
     for dname, size in zip(r.dims, r.shape):
-        k = dname if dname in GRID_KINDS or dname in LEAD_KINDS else "other"
+        k = dname if dname in GRID_KINDS or dname in LEAD_KINDS or dname in AUX_LEN else "other"
         size = int(size)
         if k in GRID_KINDS:
             n = 0
